@@ -2,9 +2,11 @@ package checks
 
 import (
 	"bytes"
+	"crypto/sha256"
 	"fmt"
 	"reflect"
 	"strings"
+	"sync"
 	"testing"
 
 	"pgregory.net/rapid"
@@ -212,6 +214,66 @@ func runC16(w *worker) func(c c16Case) *Failure {
 			} else if !bytes.Equal(first, co) {
 				return failf("not-repeatable", "encoding the same unmodified value again gave different bytes (round %d)", round)
 			}
+		}
+		// "never modify" includes "not for a moment": while two goroutines size and encode the value,
+		// a third one reads it (a value nobody writes may be shared); every reader and every encoder
+		// must see what a call made alone sees
+		if hs := sha256.Sum256([]byte(a0)); hs[0]%2 == 0 {
+			var wg sync.WaitGroup
+			var mu sync.Mutex
+			var cf *Failure
+			report := func(f *Failure) {
+				mu.Lock()
+				if cf == nil {
+					cf = f
+				}
+				mu.Unlock()
+			}
+			for g := 0; g < 3; g++ {
+				wg.Add(1)
+				go func(g int) {
+					defer wg.Done()
+					buf := make([]byte, s)
+					for k := 0; k < 24; k++ {
+						if g == 2 {
+							v1 := b.Lift(src.Elem())
+							if m := core.EqualStruct(c.S, v1, v0, core.EqOpts{}, "$"); m != nil {
+								report(failf("argument-modified", "while EncodedSize/EncodeObject were running on it, a concurrent reader saw the value changed: %s", m))
+								return
+							}
+							continue
+						}
+						if sz, f := fSize(pv); f != nil || sz != s {
+							if f == nil {
+								f = failf("not-repeatable", "EncodedSize of a value shared read-only by two encoding goroutines returned %d, alone %d", sz, s)
+							}
+							report(f)
+							return
+						}
+						n, err, f := fEncode(buf, pv)
+						if f != nil {
+							report(f)
+							return
+						}
+						if err != nil || n != s {
+							report(failf("not-repeatable", "EncodeObject of a value shared read-only by two encoding goroutines: n=%d err=%v, alone n=%d", n, err, s))
+							return
+						}
+						if co, cerr := core.Canon(buf[:n]); cerr != nil || !bytes.Equal(co, first) {
+							report(failf("not-repeatable", "EncodeObject of a value shared read-only by two encoding goroutines gave different bytes (%v)", cerr))
+							return
+						}
+					}
+				}(g)
+			}
+			wg.Wait()
+			if cf != nil {
+				return cf
+			}
+			if f := same("concurrent EncodedSize/EncodeObject calls"); f != nil {
+				return f
+			}
+			w.label("shared-read-only-by-concurrent-encoders")
 		}
 		// decode side
 		if c.Dec != nil {
